@@ -848,7 +848,6 @@ def run(tier: str, seed: int) -> Report:
     verdicts = validate(results, rep, "batch", byte_ids)
     stage_t["tlc_validation"] = round(_time.time() - _t, 1)
     rep.extra["stage_seconds"] = stage_t
-    compare_fake_with_kernel(rep, results, real_base, real_pairs, verdicts)
     rep.traces = len(results)
     rep.evaluations = len(results)
     unspecified = {"error_at_end_of_stream_inside_message": 0, "hang_on_open_stream": 0}
@@ -884,6 +883,10 @@ def run(tier: str, seed: int) -> Report:
             unspecified["error_at_end_of_stream_inside_message"] += 1
         if outs and outs[-1][0] == "Hang":
             unspecified["hang_on_open_stream"] += 1
+    if not rep.violations:
+        # cross-check of the harness's own stream fake against kernel sockets; on a tree that already violates the
+        # property the two may legitimately differ (a non-conforming loop can depend on timing)
+        compare_fake_with_kernel(rep, results, real_base, real_pairs, verdicts)
     rep.extra["spec_to_code_drift"] = drift
     rep.extra["unspecified"] = unspecified
     rep.extra["observations"] = notes
